@@ -578,7 +578,9 @@ def name_based_wiring_binds_exactly_the_matching_handlers(b):
   src = b.new(Src2)
   prio = b.int("priority", -5, 5)
   which = b.choice("prefix", ["", "pre", "_pre", "nothing"])
-  cs = {"builtins:print": CallSpec("opaque", envelope="warning text")} if b.mode == "sym" else {}
+  # (weakref.ref is given its contract here too: a wiring that mixes up its `weak` and `priority` arguments - seeded change
+  # C05_10 - takes the weak path, which must then be decidable rather than out of reach)
+  cs = {"builtins:print": CallSpec("opaque", envelope="warning text"), "weakref:ReferenceType": WeakRefSpec()} if b.mode == "sym" else {}
   def run(s, which):
     sink = AutoSink()
     ids = s.addListeners(sink, which, False, prio)
